@@ -121,7 +121,15 @@ func (r *RequestContext) Request() *heimdall.Request {
 
 func (r *RequestContext) Headers() map[string]string { return r.reqHeaders }
 func (r *RequestContext) Header(name string) string {
-	return r.reqHeaders[http.CanonicalHeaderKey(name)]
+	key := http.CanonicalHeaderKey(name)
+
+	// envoy sends the host as :authority pseudo header, and as separate attribute of the request,
+	// whereas the http based services expose it as Host header
+	if value, ok := r.reqHeaders[key]; ok || key != "Host" {
+		return value
+	}
+
+	return r.reqURL.Host
 }
 
 func (r *RequestContext) Cookie(name string) string {
